@@ -178,12 +178,36 @@ class Func:
             dj = self.decls[d]
             if dj['kind'] != 'local':
                 continue
-            if cnt.get(d, 0) > 0:
-                continue
             if not (dj.get('isref') or dj.get('isptr')):
                 continue
+            if cnt.get(d, 0) > 0 and not dj.get('isref'):
+                continue      # a pointer that is re-assigned is not an alias; a reference can not be re-bound
+            if not dj.get('isref') and not self._stable_pointer_init(init):
+                continue      # a pointer loaded from memory is a snapshot of that location, not a name for it
             al[d] = init
         return al
+
+    def _stable_pointer_init(self, init):
+        """&lvalue, this, a copy/cast of another local or parameter, or a conversion operator on a local object."""
+        i = self.skip(init)
+        e = self.x(i)
+        if e is None:
+            return False
+        k = e['k']
+        if k == 'this' or (k == 'unop' and e['op'] == '&'):
+            return True
+        if k == 'ref':
+            return self.decls[e['decl']]['kind'] in ('param', 'local')
+        if k == 'call' and is_conversion(e) and 'recv' in e:
+            r = self.x(self.skip(e['recv']))
+            return r is not None and r['k'] == 'ref'
+        if k == 'cond':
+            t, fl = self.x(self.skip(e['t'])), self.x(self.skip(e['f']))
+            if fl is not None and fl['k'] == 'lit':
+                return self._stable_pointer_init(e['t'])
+            if t is not None and t['k'] == 'lit':
+                return self._stable_pointer_init(e['f'])
+        return False
 
     def value_init(self, d):
         """init expr of a local assigned exactly once at its declaration (value alias)."""
@@ -231,6 +255,9 @@ class Func:
                 return None
             if e.get('ismethod'):
                 return None
+            if e['name'] == '':
+                # anonymous struct/union member: transparent
+                return ('*' + b if not b.startswith('&') else b[1:]) if e['arrow'] else b
             if e['arrow']:
                 if b.startswith('&'):
                     return _wrap(b[1:]) + '.' + e['name']
@@ -454,7 +481,8 @@ class Program:
 
     def find(self, name, sig=None, file=None, all=False, required=True):
         """Find functions by (template-stripped or exact) qualified name."""
-        c = self.by_name.get(name) or self.by_nname.get(name) or []
+        c = list(self.by_name.get(name) or [])
+        c += [f for f in (self.by_nname.get(name) or []) if f not in c]
         if sig is not None:
             c = [f for f in c if sig in f.sig]
         if file is not None:
